@@ -121,6 +121,8 @@ structure Pert where
   eft : Nat → Rat
   lst : Nat → Rat
   lft : Nat → Rat
+  /-- tasks whose lst/lft have been set in the current backward pass (`calculated_task_set`) -/
+  done : Nat → Bool := fun _ => false
 
 /-- one relaxation `input_task → next_task` of the forward pass -/
 def fwdRelax (l : Live) (p : Pert) (i : Nat) (e : Nat × Dep) : Pert :=
@@ -163,7 +165,8 @@ def bwdRelax (l : Live) (p : Pert) (o : Nat) (e : Nat × Dep) : Pert :=
     | .sf => let lst := p.lst o
              let lft := lst + l.rem pv
              (if p.lft o < lst then p.lft o else lst, lft)
-  if pre < 0 ∨ pre ≥ lft then { p with lst := upd p.lst pv lst, lft := upd p.lft pv lft } else p
+  if p.done pv = false ∨ pre ≥ lft then
+    { p with lst := upd p.lst pv lst, lft := upd p.lft pv lft, done := upd p.done pv true } else p
 
 def bwdWave (m : Model) (l : Live) (wave : List Nat) (p : Pert) : Pert :=
   wave.foldl (fun acc o => (m.task o).inputs.foldl (fun a e => bwdRelax l a o e) acc) p
@@ -202,7 +205,8 @@ def pertBwd (m : Model) (l : Live) (reset : Bool) (p : Pert) : Pert × Rat :=
                lft := fun t => if t < m.nT then -1 else p.lft t } else p
   let p1 : Pert :=
     { base with lft := fun t => if tl.contains t then cpl else base.lft t
-                lst := fun t => if tl.contains t then cpl - l.rem t else base.lst t }
+                lst := fun t => if tl.contains t then cpl - l.rem t else base.lst t
+                done := fun _ => false }
   (bwdLoop m l (m.nT + 1) tl p1, cpl)
 
 def pertReset : Bool := true
